@@ -1,6 +1,11 @@
-"""C14 - walk presents exactly the non-empty uncommon and marginal intersections (bounded; DESIGN §6 C14).
+"""C14 - walk presents exactly the non-empty uncommon and marginal intersections (DESIGN §6 C14, §12).
 
-Ghost trace of callback invocations on ccube.walk / ccube._walk (per branch of the recursion) /
+Proved part (engine A, cv/kvc/walkexec.py): the real `_walk` is executed symbolically per case of its contract; the count of
+deliveries of an arbitrary coordinate tuple and the rows delivered are obligations discharged by z3 for all dimensions, data and
+depths (induction over len(dims), the recursive calls entering by the contract), the kernel entering by the set-level reading of
+the contract C08 proves.
+
+Bounded part: ghost trace of callback invocations on ccube.walk / ccube._walk (per branch of the recursion) /
 ccube.interactions, compared with {(c, rows(c))} computed by brute force from the dense views; same
 driver and cases as C02 (walk parts: interactions(), walk((f, g)), walk(f), and the walks that
 calculate makes on the 1-D sub-cubes of a count)."""
@@ -9,8 +14,59 @@ from . import c02
 LEVEL = "exploration"
 
 
+def proved_part():
+    import ast
+
+    from .. import env
+    from ..kvc import discharge, walkexec as W
+    from contracts import kernels as K
+
+    tree = ast.parse(env.read_source("ccubes.py"))
+    obls, stale = [], []
+    for what, f in (("ccube._walk", lambda: W.verify_walk(tree)), ("ccube.walk", lambda: W.verify_entry_points(tree)), ("kernel lemma", lambda: W.kernel_lemma(K))):
+        try:
+            obls += f()
+        except W.Unsupported as e:
+            stale.append((what, str(e)))
+    return (discharge.discharge(obls) if obls else []), stale
+
+
 def run(ctx):
+    from .. import core
+
+    results, stale = proved_part()
     c02.run(ctx, "C14")
+    real = [r for r in results if r.kind != "canary"]
+    failed = [r for r in results if not r.discharged]
+    for r in failed:
+        if r.kind == "canary":
+            raise core.CheckerBroken("vacuous hypotheses: canary %s is %s" % (r.name, r.verdict))
+        witness = [v for v in ctx.violations if v.input is not None]
+        if witness:
+            v = witness[0]
+            ctx.violation(core.Violation("C14", r.name, "obligation generated from the current source of _walk is not discharged (%s); the bounded run of the real code "
+                                         "fails %s: %s" % (r.verdict, v.obligation, v.what), input=v.input, cls={"function": "_walk"}))
+        else:
+            ctx.violation(core.Violation("C14", r.name, "obligation generated from the current source of _walk is not discharged (%s by %s); the bounded run found no "
+                                         "failing input" % (r.verdict, r.backend), input=None, cls={"function": "_walk"},
+                                         solver={"verdict": r.verdict, "backend": r.backend, "detail": r.detail, "model": r.model}, no_input=True))
+    ctx.coverage["proved_subobligations"] = {
+        "what": "ccube._walk executed symbolically on the working tree's AST per contract case (several/one/no dimensions x restricted/unrestricted): for an ARBITRARY "
+                "coordinate tuple the number of callback calls is 1 iff every coordinate is a key or -1, not all are -1 (unrestricted), and the intersection is "
+                "non-empty, else 0; the rows passed are exactly that intersection, strictly increasing; recursive calls meet the contract's requires on strictly "
+                "shorter dims (induction); the set-level kernel contract is derived from the array-level contract C08 proves",
+        "obligations": len(real), "discharged": sum(1 for r in real if r.discharged), "canaries": sum(1 for r in results if r.kind == "canary"),
+        "solver_s": round(sum(r.seconds for r in results), 2), "back_ends": sorted({r.backend for r in real if r.discharged}),
+        "second_back_end": sorted({str(r.second) for r in real if r.second is not None}),
+        "names": [r.name for r in real][:60], "proof_stale": stale,
+    }
+    if stale:
+        ctx.notes.append("proved part not generated (source outside the executor's subset; the bounded part decides): %r" % (stale,))
+    ctx.assumptions += [
+        "proved part: dict iteration visits every key of dims[0] exactly once and `for func in funcs` every callback once (loop rule); a strictly increasing uint32 "
+        "array is abstracted to its element set; dimensions are well-formed one-axis indexes (keys (k,), k >= 0, entries non-empty strictly increasing: C07); "
+        "row-id arrays shorter than 2**31 (the kernel's length limit); the accumulation into self.intersection_data_points is outside the contract",
+    ]
 
 
 replay = c02.replay
